@@ -28,6 +28,8 @@ CASES = {
     'neg_index': [(b'abc',), (b'z',)],
     'bytes_eq': [(b'ab', b'ab'), (b'ab', b'ba'), (b'', b'')],
     'divmod_neg': [(0,), (1,), (1025,), (4096,)],
+    'pow2_ops': [(0,), (3,), (-1,), (-2,), (10,)],
+    'low_mask': [(0x2B, 3), (0x2B, 0), (0xFF, 8), (8, 3), (26, 4), (26, 2)],
 }
 
 
